@@ -211,7 +211,8 @@ theorem httpQueue_state (s : St) (p : Nat) (urlUid : Option Nat) :
   by_cases hg : cu &&& urlUid.getD notAUid ≠ cu
   · rw [if_pos hg]; exact Or.inl rfl
   · rw [if_neg hg]
-    generalize (if cu &&& urlUid.getD notAUid ≠ 0 then cu &&& urlUid.getD notAUid else urlUid.getD notAUid) = u
+    generalize (if cu &&& urlUid.getD notAUid ≠ 0 then cu &&& urlUid.getD notAUid else
+      if urlUid.getD notAUid = notAUid then 0 else urlUid.getD notAUid) = u
     by_cases c : (s.dirty.contains u || decide (16 ≤ s.dirty.length)) = true
     · rw [if_pos c]; right; split <;> rfl
     · rw [if_neg c]; left; split <;> rfl
